@@ -599,6 +599,9 @@ func judgeTorrent0(c *vk.C, in []byte, v *view) outcome {
 	}
 	if err != nil {
 		c.Count("rejected", 1)
+		if v.ok && len(v.infoSpans) > 0 {
+			metadataRetry(c, in, in[v.infoSpans[0][0]:v.infoSpans[0][1]])
+		}
 		return outcome{class: "rejected"}
 	}
 	if t == nil {
@@ -674,6 +677,49 @@ func judgeTorrent0(c *vk.C, in []byte, v *view) outcome {
 	return outcome{class: "accepted", accepted: true}
 }
 
+// metadataRetry: the same info dictionary arriving over the magnet path (tor.New with the bytes, then
+// MetadataComplete, as after a complete ut_metadata transfer). A dictionary that ReadTorrent refused is
+// offered three times, as the torrent's loop does every few seconds while peers keep delivering it: each
+// attempt must fail with an error, none may panic, none may suddenly succeed.
+func metadataRetry(c *vk.C, in, info []byte) {
+	h := sha1.Sum(info)
+	t, err := tor.New("", h[:], "", append([]byte(nil), info...), 0, nil, nil)
+	if err != nil || t == nil {
+		return
+	}
+	c.Count("metadata_retry_inputs", 1)
+	for attempt := 1; attempt <= 3; attempt++ {
+		var pan any
+		var merr error
+		func() {
+			defer func() {
+				if p := recover(); p != nil {
+					pan = p
+				}
+			}()
+			merr = t.MetadataComplete()
+		}()
+		if pan != nil {
+			c.Violation("panic", "panic MetadataComplete attempt-"+fmt.Sprint(attempt)+" "+panicClass(pan), fmt.Sprintf("MetadataComplete panicked on attempt %d with an info dictionary that ReadTorrent refuses: %v", attempt, pan), replay(in))
+			return
+		}
+		if merr == nil {
+			if attempt > 1 {
+				c.Violation("geometry", "metadata-accepted-on-retry", fmt.Sprintf("an info dictionary refused on the first attempt was accepted on attempt %d", attempt), replay(in))
+			} else {
+				// ReadTorrent refused for a reason outside the info dictionary
+				c.Count("metadata_retry_accepted_first", 1)
+			}
+			return
+		}
+		if t.InfoComplete() {
+			c.Violation("geometry", "info-complete-after-refusal", "InfoComplete() is true after MetadataComplete returned an error", replay(in))
+			return
+		}
+	}
+	c.Count("metadata_retry_refused_thrice", 1)
+}
+
 func geometry(c *vk.C, t *tor.Torrent, v *view, in []byte) {
 	bad := func(clause, detail string) {
 		c.Violation("geometry", "geometry "+clause, detail, replay(in))
@@ -736,6 +782,22 @@ func geometry(c *vk.C, t *tor.Torrent, v *view, in []byte) {
 		if want := ceilDiv(bl, int64(ps)); big.NewInt(int64(num)).Cmp(want) != 0 {
 			bad("piece-count", fmt.Sprintf("Pieces.Num()=%d for length %d and piece length %d, want %s", num, L, ps, want))
 		}
+	}
+	if ps != 0 && num > 0 && L > 0 {
+		// the pieces' own lengths: all but the last are a piece length, the last takes what remains
+		lastWant := L - int64(num-1)*int64(ps)
+		if got := int64(t.Pieces.PieceLength(uint32(num - 1))); lastWant > 0 && lastWant <= int64(ps) && got != lastWant {
+			bad("last-piece-length", fmt.Sprintf("PieceLength(last=%d)=%d for length %d and piece length %d, want %d", num-1, got, L, ps, lastWant))
+		}
+		if num > 1 {
+			if got := t.Pieces.PieceLength(0); got != ps {
+				bad("piece-length", fmt.Sprintf("PieceLength(0)=%d, piece length is %d", got, ps))
+			}
+		}
+		if got := t.Pieces.PieceLength(uint32(num)); got != 0 {
+			bad("piece-length", fmt.Sprintf("PieceLength(%d)=%d beyond the last piece", num, got))
+		}
+		c.Count("piece_lengths_checked", 1)
 	}
 	if nh < num {
 		bad("piece-table short", fmt.Sprintf("%d piece hashes for %d pieces (length %d, piece length %d; the input's pieces string has %d bytes)", nh, num, L, ps, v.piecesLen))
@@ -1262,6 +1324,14 @@ func systematic() []sysCase {
 			s.info.Set("length", l)
 		}
 		add(fmt.Sprintf("single length=%d", l), s)
+	}
+	// lengths beyond 2^32 with piece lengths that are not powers of two: 32-bit remainders go wrong here
+	for _, pl := range []int64{48 << 10, 80 << 10, 3 << 20} {
+		for _, l := range []int64{1<<32 + 100000, 3<<32 + 1, 1<<32 + pl, 1<<33 - 1} {
+			s := baseS()
+			setSingle(s, pl, l)
+			add(fmt.Sprintf("single length=%d piece-length=%d", l, pl), s)
+		}
 	}
 	{
 		s := baseS()
